@@ -42,7 +42,7 @@ CLAIMED = {
 
  'C08': ('exploration', 'history monitor at the boundary of the real preprocessor stage with the real LevelDB seen-store: real-time order from stamps around each pass, reference canonical URLs from an independent resolver',
          'Histories of 30-50 seeds with heavily overlapping assets (10 URLs x 8 spellings, nested assets, redirects, pool URLs reused as seeds), sequential and with 4-8 seeds in flight; a check that started after another check of the same URL ended must be skipped (modulo seed-over-asset promotion), a skipped item needs a check that could have recorded it, and no URL is fetched by two non-seed nodes of a tree.',
-         'Local seen-store only so far (HQ store needs the HQ double); pool spellings are from a safe alphabet.', '4/C08'),
+         'Local LevelDB store at stage level; crawl-HQ store through full-pipeline HQ-mode runs against an HQ double; pool spellings are from a safe alphabet.', '4/C08'),
 
  'C10': ('exploration', 'crash / CPU-and-memory-budget oracle over hostile responses served to the real preprocessor+postprocessor stages in isolated child processes (structure-aware generation + mutation of valid samples)',
          'Each input is regenerable from (seed, index); the index is written to disk before the input is processed, so a panic anywhere in the (recover-less) stage workers or a spin beyond the CPU/memory budget is attributed to its input; hangs are confirmed alone with 5x the budget unless they match a listed finding.',
@@ -71,6 +71,10 @@ CLAIMED = {
  'C06': ('exploration', 'bound monitors over the origin log and hook events of full-pipeline runs against an adversarial origin (positions and levels are encoded in the URLs) + stage-level hop-assignment oracle under max-hops x domains-crawl',
          'Endless redirect chains (seed and asset level), loops, endlessly nested JSON/XML/M3U8, self references and always-failing URLs are served to the real pipeline; no chain position beyond max-redirect, no nesting level beyond 3, no retry index beyond max-retry, no more than 4*(max-redirect+1) reactor passes may be observed and every seed must finish; outlink hops are compared with the rule of the statement for every generated outlink.',
          'Parameter values and server behaviours are a fixed generated family; depth rule only with domains-crawl off.', '4/C06'),
+
+ 'C15': ('fault_enumeration', 'delivery monitor over the request log of a crawl-HQ double with a scripted fault sequence (5xx, reset, stall on the k-th add/delete/get) driven by the real pipeline and the real gocrawlhq client; local-queue variant over hook events and lq.db',
+         'Obligations are known by construction (planted outlinks of crawled pages below the hop limit, seeds handed out): at structural quiescence with the fault script exhausted each must have been carried by a successful call with value, via and hop path intact, ids acknowledged, hops surviving the round trip; in LQ mode rows carry value/via/hops, no URL is handed out twice, finished rows are gone.',
+         'Fault scripts are seeded samples of finite sequences; the double mirrors the endpoints/status codes of the pinned client, not the real service.', '4/C15'),
 }
 NOT_BUILT = 'check not built yet in this session (planned, see DESIGN.md section 4)'
 
